@@ -1,5 +1,403 @@
+/-
+Helper lemmas for C11: inversion of the builder operations, invariants of reachable builders
+(type list, attribute sizes, tail shape) and the length field of the built bytes.
+-/
 import StunVerif.Spec.Builder
 import StunVerif.Lemmas.Write
 import StunVerif.Lemmas.Parse
 namespace StunVerif
+open Spec
+
+/-! ### `find?` / `any` on the type list -/
+
+theorem hasAny_none_iff (b : Builder) (ts : List Nat) :
+    b.hasAnyAttribute ts = none ↔ ∀ t ∈ b.types, t ∉ ts := by
+  simp [Builder.hasAnyAttribute, List.find?_eq_none]
+
+theorem hasAny_some_mem {b : Builder} {ts : List Nat} {t : Nat}
+    (h : b.hasAnyAttribute ts = some t) : t ∈ b.types ∧ t ∈ ts := by
+  unfold Builder.hasAnyAttribute at h
+  have h1 := List.find?_some h
+  have h2 := List.mem_of_find?_eq_some h
+  exact ⟨h2, by simpa using h1⟩
+
+theorem hasAttribute_iff (b : Builder) (t : Nat) : b.hasAttribute t = true ↔ t ∈ b.types := by
+  simp [Builder.hasAttribute]
+
+/-! ### inversion of the operations -/
+
+theorem addGuard_ok_iff (b : Builder) (ty : Nat) :
+    b.addGuard ty = .ok () ↔ ∀ t ∈ b.types, t ∉ [ty, tyMI, tyMI256, tyFP] := by
+  unfold Builder.addGuard
+  cases h : b.hasAnyAttribute [ty, tyMI, tyMI256, tyFP] with
+  | none => simpa using (hasAny_none_iff b _).mp h
+  | some t =>
+    obtain ⟨h1, h2⟩ := hasAny_some_mem h
+    simp only
+    constructor
+    · intro hg
+      exfalso
+      simp only [List.mem_cons, List.not_mem_nil, or_false] at h2
+      split at hg
+      · cases hg
+      · split at hg
+        · cases hg
+        · split at hg
+          · cases hg
+          · split at hg
+            · cases hg
+            · omega
+    · intro hall
+      exact absurd h2 (hall t h1)
+
+theorem addGuard_cases (b : Builder) (ty : Nat) :
+    b.addGuard ty = .ok () ∨ ∃ e, b.addGuard ty = .error e := by
+  cases h : b.addGuard ty with
+  | ok u => exact Or.inl rfl
+  | error e => exact Or.inr ⟨e, rfl⟩
+
+theorem add_ok_iff (b b' : Builder) (a : BAttr) :
+    b.add a = .ok b' ↔
+      b.addGuard a.ty = .ok () ∧
+      b' = { b with attrs := b.attrs ++ [a], types := b.types ++ [a.ty] } := by
+  unfold Builder.add
+  cases h : b.addGuard a.ty with
+  | ok u => simp [eq_comm]
+  | error e => simp
+
+theorem add_err_iff (b : Builder) (a : BAttr) :
+    (∃ e, b.add a = .error e) ↔ ¬ b.addGuard a.ty = .ok () := by
+  unfold Builder.add
+  cases h : b.addGuard a.ty with
+  | ok u => simp
+  | error e => simp
+
+/-- the type list an integrity operation checks -/
+def integrityBlockers : Algo → List Nat
+  | .sha1 => [tyMI, tyMI256, tyFP]
+  | .sha256 => [tyMI256, tyFP]
+
+def integrityTy : Algo → Nat
+  | .sha1 => tyMI
+  | .sha256 => tyMI256
+
+def integrityExtra : Algo → Nat
+  | .sha1 => 24
+  | .sha256 => 36
+
+def integrityMac (H : Hashes) (key : Bytes) (algo : Algo) (bytes : Bytes) : Bytes :=
+  match algo with
+  | .sha1 => H.hmacSha1 key bytes
+  | .sha256 => H.hmacSha256 key bytes
+
+theorem addIntegrity_ok (H : Hashes) (b b' : Builder) (c : Creds) (algo : Algo)
+    (h : b.addIntegrity H c algo = .ok b') :
+    (∀ t ∈ b.types, t ∉ integrityBlockers algo) ∧
+    ∃ bytes, b.bytesWithExtraLen (integrityExtra algo) = some bytes ∧
+      b' = { b with
+        attrs := b.attrs ++ [.raw ⟨integrityTy algo, integrityMac H (hmacKey H c) algo bytes⟩],
+        types := b.types ++ [integrityTy algo] } := by
+  unfold Builder.addIntegrity at h
+  cases algo with
+  | sha1 =>
+    simp only at h
+    cases hh : b.hasAnyAttribute [tyMI, tyMI256, tyFP] with
+    | some t =>
+      rw [hh] at h
+      simp only at h
+      split at h
+      · cases h
+      · split at h <;> cases h
+    | none =>
+      rw [hh] at h
+      simp only at h
+      refine ⟨(hasAny_none_iff b _).mp hh, ?_⟩
+      cases hb : b.bytesWithExtraLen 24 with
+      | none => rw [hb] at h; cases h
+      | some bytes =>
+        rw [hb] at h
+        simp only [Except.ok.injEq] at h
+        exact ⟨bytes, hb, h.symm⟩
+  | sha256 =>
+    simp only at h
+    cases hh : b.hasAnyAttribute [tyMI256, tyFP] with
+    | some t =>
+      rw [hh] at h
+      simp only at h
+      split at h
+      · cases h
+      · split at h <;> cases h
+    | none =>
+      rw [hh] at h
+      simp only at h
+      refine ⟨(hasAny_none_iff b _).mp hh, ?_⟩
+      cases hb : b.bytesWithExtraLen 36 with
+      | none => rw [hb] at h; cases h
+      | some bytes =>
+        rw [hb] at h
+        simp only [Except.ok.injEq] at h
+        exact ⟨bytes, hb, h.symm⟩
+
+theorem addIntegrity_err_iff (H : Hashes) (b : Builder) (c : Creds) (algo : Algo)
+    (hb : b.bytesWithExtraLen (integrityExtra algo) ≠ none) :
+    (∃ e, b.addIntegrity H c algo = .error e) ↔ ∃ t ∈ b.types, t ∈ integrityBlockers algo := by
+  constructor
+  · rintro ⟨e, he⟩
+    apply Classical.byContradiction
+    intro hn
+    have hn' : ∀ t ∈ b.types, t ∉ integrityBlockers algo := by
+      intro t ht hc; exact hn ⟨t, ht, hc⟩
+    have hh := (hasAny_none_iff b _).mpr hn'
+    unfold Builder.addIntegrity at he
+    cases algo with
+    | sha1 =>
+      simp only [integrityBlockers] at hh
+      simp only [hh] at he
+      cases hb' : b.bytesWithExtraLen 24 with
+      | none => exact hb hb'
+      | some bytes => rw [hb'] at he; cases he
+    | sha256 =>
+      simp only [integrityBlockers] at hh
+      simp only [hh] at he
+      cases hb' : b.bytesWithExtraLen 36 with
+      | none => exact hb hb'
+      | some bytes => rw [hb'] at he; cases he
+  · rintro ⟨t, ht, hc⟩
+    cases hr : b.addIntegrity H c algo with
+    | error e => exact ⟨e, rfl⟩
+    | ok b' => exact absurd hc ((addIntegrity_ok H b b' c algo hr).1 t ht)
+
+/-- the attribute `add_fingerprint` appends -/
+def fpAttr (bytes : Bytes) : BAttr := .raw ⟨tyFP, xorBytes (Crc.crc32Bytes bytes) fpXorConst⟩
+
+theorem addFingerprint_ok (b b' : Builder) (h : b.addFingerprint = .ok b') :
+    tyFP ∉ b.types ∧
+    ∃ bytes, b.bytesWithExtraLen 8 = some bytes ∧
+      b' = { b with attrs := b.attrs ++ [fpAttr bytes], types := b.types ++ [tyFP] } := by
+  unfold Builder.addFingerprint at h
+  split at h
+  · cases h
+  · rename_i hn
+    refine ⟨fun hm => hn ((hasAttribute_iff b tyFP).mpr hm), ?_⟩
+    cases hb : b.bytesWithExtraLen 8 with
+    | none => rw [hb] at h; cases h
+    | some bytes =>
+      rw [hb] at h
+      simp only [Except.ok.injEq] at h
+      exact ⟨bytes, rfl, h.symm⟩
+
+theorem addFingerprint_err_iff (b : Builder) (hb : b.bytesWithExtraLen 8 ≠ none) :
+    (∃ e, b.addFingerprint = .error e) ↔ tyFP ∈ b.types := by
+  unfold Builder.addFingerprint
+  by_cases hm : b.hasAttribute tyFP = true
+  · rw [if_pos hm]
+    simp [(hasAttribute_iff b tyFP).mp hm]
+  · rw [if_neg hm]
+    have : tyFP ∉ b.types := fun h => hm ((hasAttribute_iff b tyFP).mpr h)
+    cases hb' : b.bytesWithExtraLen 8 with
+    | none => exact absurd hb' hb
+    | some bytes => simp [this]
+
+/-! ### invariants of reachable builders -/
+
+theorem intoOwned_ty (a : BAttr) : a.intoOwned.ty = a.ty := by
+  cases a <;> rfl
+
+theorem reach_types (H : Hashes) (b : Builder) (hr : Reach H b) :
+    b.types = b.attrs.map BAttr.ty := by
+  induction hr with
+  | new ty tid _ _ => rfl
+  | add b b' a _ _ hadd ih =>
+    obtain ⟨_, rfl⟩ := (add_ok_iff b b' a).mp hadd
+    simp [ih]
+  | integrity b b' c algo _ hi ih =>
+    obtain ⟨_, bytes, _, rfl⟩ := addIntegrity_ok H b b' c algo hi
+    simp [ih, BAttr.ty]
+  | fingerprint b b' _ hf ih =>
+    obtain ⟨_, bytes, _, rfl⟩ := addFingerprint_ok b b' hf
+    simp [ih, BAttr.ty, fpAttr]
+  | owned b _ ih =>
+    simp only [Builder.intoOwned, List.map_map]
+    rw [ih]
+    apply List.map_congr_left
+    intro a _
+    exact (intoOwned_ty a).symm
+
+theorem addable_ok {a : BAttr} (h : Addable a) : a.Ok := by
+  cases a with
+  | typed v => exact h.1
+  | raw r => exact h.1
+
+theorem integrityMac_length (H : Hashes) (hH : HashesOk H) (key : Bytes) (algo : Algo)
+    (bytes : Bytes) : (integrityMac H key algo bytes).length < 65536 := by
+  have := hH key bytes
+  cases algo <;> simp only [integrityMac] <;> omega
+
+theorem reach_ok (H : Hashes) (hH : HashesOk H) (b : Builder) (hr : Reach H b) :
+    ∀ a ∈ b.attrs, a.Ok := by
+  induction hr with
+  | new ty tid _ _ => intro a ha; simp [Builder.new] at ha
+  | add b b' a _ had hadd ih =>
+    obtain ⟨_, rfl⟩ := (add_ok_iff b b' a).mp hadd
+    intro x hx
+    simp only [List.mem_append, List.mem_singleton] at hx
+    rcases hx with hx | rfl
+    · exact ih x hx
+    · exact addable_ok had
+  | integrity b b' c algo _ hi ih =>
+    obtain ⟨_, bytes, _, rfl⟩ := addIntegrity_ok H b b' c algo hi
+    intro x hx
+    simp only [List.mem_append, List.mem_singleton] at hx
+    rcases hx with hx | rfl
+    · exact ih x hx
+    · exact integrityMac_length H hH _ _ _
+  | fingerprint b b' _ hf ih =>
+    obtain ⟨_, bytes, _, rfl⟩ := addFingerprint_ok b b' hf
+    intro x hx
+    simp only [List.mem_append, List.mem_singleton] at hx
+    rcases hx with hx | rfl
+    · exact ih x hx
+    · simp only [fpAttr, BAttr.Ok, xorBytes_length, fpXorConst]
+      simp only [List.length_cons, List.length_nil]
+      omega
+  | owned b _ ih => exact (builder_owned b ih).1
+
+/-! ### the length field of the built bytes -/
+
+theorem build_lenField (b : Builder) (hb : ∀ a ∈ b.attrs, a.Ok) :
+    beNat ((b.build.drop 2).take 2) = (b.byteLen - 20) % 65536 := by
+  rw [builder_build b hb]
+  simp only [enc16, cookieBytes, List.cons_append, List.nil_append, List.drop_succ_cons,
+    List.drop_zero, List.take_succ_cons, List.take_zero]
+  simp [beNat]
+  omega
+
+theorem bytesWithExtraLen_some (b : Builder) (hb : ∀ a ∈ b.attrs, a.Ok) (extra : Nat)
+    (hs : b.byteLen + extra ≤ 65535 + 20) : b.bytesWithExtraLen extra ≠ none := by
+  unfold Builder.bytesWithExtraLen
+  simp only [build_lenField b hb]
+  have h20 : 20 ≤ b.byteLen := by unfold Builder.byteLen; omega
+  rw [if_neg (by omega)]
+  simp
+
+/-! ### the shape of the type list -/
+
+def tailShapes : List (List Nat) :=
+  [[], [tyMI], [tyMI256], [tyMI, tyMI256], [tyFP], [tyMI, tyFP], [tyMI256, tyFP],
+   [tyMI, tyMI256, tyFP]]
+
+def TailShape (types : List Nat) : Prop :=
+  ∃ pre tail, types = pre ++ tail ∧ (∀ t ∈ pre, isEnding t = false) ∧ tail ∈ tailShapes
+
+theorem isEnding_iff (t : Nat) : isEnding t = true ↔ t = tyMI ∨ t = tyMI256 ∨ t = tyFP := by
+  simp [isEnding, or_assoc]
+
+theorem addable_not_ending {a : BAttr} (h : Addable a) : isEnding a.ty = false := by
+  cases a with
+  | typed v => exact h.2
+  | raw r => exact h.2.2
+
+theorem tail_cases {tail : List Nat} (h : tail ∈ tailShapes) :
+    tail = [] ∨ tail = [tyMI] ∨ tail = [tyMI256] ∨ tail = [tyMI, tyMI256] ∨ tail = [tyFP] ∨
+    tail = [tyMI, tyFP] ∨ tail = [tyMI256, tyFP] ∨ tail = [tyMI, tyMI256, tyFP] := by
+  simpa [tailShapes] using h
+
+theorem tailShape_snoc_plain (types : List Nat) (t : Nat) (hs : TailShape types)
+    (hn : ∀ s ∈ types, s ∉ [t, tyMI, tyMI256, tyFP]) (ht : isEnding t = false) :
+    TailShape (types ++ [t]) := by
+  obtain ⟨pre, tail, rfl, hpre, htail⟩ := hs
+  have h1 : tyMI ∉ tail := fun h => hn tyMI (by simp [h]) (by simp)
+  have h2 : tyMI256 ∉ tail := fun h => hn tyMI256 (by simp [h]) (by simp)
+  have h3 : tyFP ∉ tail := fun h => hn tyFP (by simp [h]) (by simp)
+  have : tail = [] := by
+    rcases tail_cases htail with h | h | h | h | h | h | h | h <;> subst h <;> simp at h1 h2 h3 ⊢
+  subst this
+  refine ⟨pre ++ [t], [], by simp, ?_, by simp [tailShapes]⟩
+  intro s hs
+  simp only [List.mem_append, List.mem_singleton] at hs
+  rcases hs with hs | rfl
+  · exact hpre s hs
+  · exact ht
+
+theorem tailShape_snoc_integrity (types : List Nat) (algo : Algo) (hs : TailShape types)
+    (hn : ∀ s ∈ types, s ∉ integrityBlockers algo) :
+    TailShape (types ++ [integrityTy algo]) := by
+  obtain ⟨pre, tail, rfl, hpre, htail⟩ := hs
+  cases algo with
+  | sha1 =>
+    have h1 : tyMI ∉ tail := fun h => hn tyMI (by simp [h]) (by simp [integrityBlockers])
+    have h2 : tyMI256 ∉ tail := fun h => hn tyMI256 (by simp [h]) (by simp [integrityBlockers])
+    have h3 : tyFP ∉ tail := fun h => hn tyFP (by simp [h]) (by simp [integrityBlockers])
+    have : tail = [] := by
+      rcases tail_cases htail with h | h | h | h | h | h | h | h <;> subst h <;>
+        simp at h1 h2 h3 ⊢
+    subst this
+    exact ⟨pre, [tyMI], by simp [integrityTy], hpre, by simp [tailShapes]⟩
+  | sha256 =>
+    have h2 : tyMI256 ∉ tail := fun h => hn tyMI256 (by simp [h]) (by simp [integrityBlockers])
+    have h3 : tyFP ∉ tail := fun h => hn tyFP (by simp [h]) (by simp [integrityBlockers])
+    have : tail = [] ∨ tail = [tyMI] := by
+      rcases tail_cases htail with h | h | h | h | h | h | h | h <;> subst h <;>
+        simp at h2 h3 ⊢
+    rcases this with rfl | rfl
+    · exact ⟨pre, [tyMI256], by simp [integrityTy], hpre, by simp [tailShapes]⟩
+    · exact ⟨pre, [tyMI, tyMI256], by simp [integrityTy], hpre, by simp [tailShapes]⟩
+
+theorem tailShape_snoc_fp (types : List Nat) (hs : TailShape types) (hn : tyFP ∉ types) :
+    TailShape (types ++ [tyFP]) := by
+  obtain ⟨pre, tail, rfl, hpre, htail⟩ := hs
+  have h3 : tyFP ∉ tail := fun h => hn (by simp [h])
+  rcases tail_cases htail with h | h | h | h | h | h | h | h <;> subst h
+  · exact ⟨pre, [tyFP], by simp, hpre, by simp [tailShapes]⟩
+  · exact ⟨pre, [tyMI, tyFP], by simp, hpre, by simp [tailShapes]⟩
+  · exact ⟨pre, [tyMI256, tyFP], by simp, hpre, by simp [tailShapes]⟩
+  · exact ⟨pre, [tyMI, tyMI256, tyFP], by simp, hpre, by simp [tailShapes]⟩
+  all_goals (exfalso; simp at h3)
+
+theorem reach_tailShape (H : Hashes) (b : Builder) (hr : Reach H b) : TailShape b.types := by
+  induction hr with
+  | new ty tid _ _ => exact ⟨[], [], rfl, by simp, by simp [tailShapes]⟩
+  | add b b' a _ had hadd ih =>
+    obtain ⟨hg, rfl⟩ := (add_ok_iff b b' a).mp hadd
+    exact tailShape_snoc_plain _ _ ih ((addGuard_ok_iff b a.ty).mp hg) (addable_not_ending had)
+  | integrity b b' c algo _ hi ih =>
+    obtain ⟨hn, bytes, _, rfl⟩ := addIntegrity_ok H b b' c algo hi
+    exact tailShape_snoc_integrity _ algo ih hn
+  | fingerprint b b' _ hf ih =>
+    obtain ⟨hn, bytes, _, rfl⟩ := addFingerprint_ok b b' hf
+    exact tailShape_snoc_fp _ ih hn
+  | owned b _ ih => exact ih
+
+/-! ### operation sequences -/
+
+theorem applyOp_reach (H : Hashes) (b : Builder) (hr : Reach H b) (op : BOp)
+    (ho : opAddable op) : Reach H (applyOp H b op).1 := by
+  cases op with
+  | add a =>
+    simp only [applyOp]
+    cases h : b.add a with
+    | ok b' => exact Reach.add b b' a hr ho h
+    | error e => exact hr
+  | integrity c algo =>
+    simp only [applyOp]
+    cases h : b.addIntegrity H c algo with
+    | ok b' => exact Reach.integrity b b' c algo hr h
+    | error e => exact hr
+  | fingerprint =>
+    simp only [applyOp]
+    cases h : b.addFingerprint with
+    | ok b' => exact Reach.fingerprint b b' hr h
+    | error e => exact hr
+  | intoOwned => exact Reach.owned b hr
+  | clone => exact hr
+
+theorem runOps_reach_of (H : Hashes) (ops : List BOp) : ∀ (b : Builder), Reach H b →
+    (∀ op ∈ ops, opAddable op) → Reach H (runOps H b ops) := by
+  induction ops with
+  | nil => intro b hr _; exact hr
+  | cons op ops ih =>
+    intro b hr ho
+    simp only [runOps, List.foldl_cons]
+    exact ih _ (applyOp_reach H b hr op (ho op (by simp))) (fun o h => ho o (by simp [h]))
+
 end StunVerif
